@@ -190,9 +190,10 @@ func NewChainCfg(nUsers int, r *Rng) *ChainCfg {
 	}
 	gs[inflationtypes.ModuleName] = cdc.MustMarshalJSON(ig)
 
-	// csr: enabled (the Turnstile is deployed by the first BeginBlock)
+	// csr: mostly enabled (the Turnstile is deployed by the first BeginBlock); in a third of the configurations it starts
+	// disabled and governance enables it later, so that the deployment happens at a height that depends on the history
 	cg := csrtypes.DefaultGenesis()
-	cg.Params.EnableCsr = true
+	cg.Params.EnableCsr = !r.Chance(1, 3)
 	cg.Params.CsrShares = sdkmath.LegacyNewDecWithPrec(int64(10+r.Intn(60)), 2)
 	gs[csrtypes.ModuleName] = cdc.MustMarshalJSON(cg)
 
